@@ -43,6 +43,8 @@ def make_mdp(case, R):
     # ONE action list object is returned for every state, and one distribution object per distinct row is
     # returned on every call (caller-owned, persistent objects); shared_state() snapshots them
     shared_actions = list(al)
+    avail = case.get("avail")
+    per_state = None if avail is None else {sl[s]: [al[a] for a in range(nA) if avail[s][a]] for s in range(nS)}
     dists = {}
 
     def nsd(s, a):
@@ -53,11 +55,11 @@ def make_mdp(case, R):
     mdp = QuickTabularMDP(
         next_state_dist=nsd,
         reward=lambda s, a, ns: R[si[s]][ai[a]][si[ns]],
-        actions=lambda s: shared_actions,
+        actions=(lambda s: shared_actions) if per_state is None else (lambda s: per_state[s]),
         initial_state_dist=init,
         is_absorbing=lambda s: False,
         discount_rate=g)
-    mdp._c19_shared = lambda: (list(shared_actions), sorted((repr(k), sorted((repr(x), p) for x, p in d.items())) for k, d in dists.items()),
+    mdp._c19_shared = lambda: (list(shared_actions), None if per_state is None else sorted((repr(k), list(map(repr, v))) for k, v in per_state.items()), sorted((repr(k), sorted((repr(x), p) for x, p in d.items())) for k, d in dists.items()),
                                sorted((repr(x), p) for x, p in init.items()))
     return mdp, si, ai
 
@@ -76,10 +78,32 @@ def weight(case, torch):
     return torch.tensor([fl(x) for x in lam], dtype=torch.float64)
 
 
-def tables(res, sl, al):
-    return ([[fj(res.policy[s][a]) for a in al] for s in sl],
-            [[fj(res.actionvaluefunc[s][a]) for a in al] for s in sl],
+def tables(res, sl, al, can=None):
+    """every entry of the planner's result tables, read by (state, action) LABEL; can(s, a) False = the action
+    cannot be taken there: such an entry may legitimately be absent (None)"""
+    def get(f, s, a):
+        if can is None or can(s, a):
+            return fj(f())
+        try:
+            return fj(f())
+        except (KeyError, IndexError, ValueError):
+            return None
+    return ([[get(lambda: res.policy[s][a], s, a) for a in al] for s in sl],
+            [[get(lambda: res.actionvaluefunc[s][a], s, a) for a in al] for s in sl],
             [fj(res.valuefunc[s]) for s in sl])
+
+
+def extras(res, sl):
+    out = {"initial_value": None, "policy_divergence": None}
+    try:
+        out["initial_value"] = fj(res.initial_value)
+    except AttributeError:
+        pass
+    try:
+        out["policy_divergence"] = [fj(res.policy_divergence[s]) for s in sl]
+    except (AttributeError, KeyError):
+        pass
+    return out
 
 
 def one(case, pl):
@@ -107,6 +131,8 @@ def one(case, pl):
         planner = PLANNERS[key]
         same, stale = None, None
         prior_before = None if prior is None else prior.clone()
+        av = case.get("avail")
+        can = None if av is None else (lambda s, a: av[si[s]][ai[a]])
         before = mdp._c19_shared()
         if case.get("decoy"):
             # same planner object: (1) another MDP with the same labels and other numbers, (2) the real MDP,
@@ -124,19 +150,17 @@ def one(case, pl):
                         "T": [[[("1" if n == (s + a + 1) % nS2 else "0") for n in range(nS2)] for a in range(nA)] for s in range(nS2)]})
             other2, _, _ = make_mdp(big, [[[float((s * 7 + a * 3 + n) % 5) for n in range(nS2)] for a in range(nA)] for s in range(nS2)])
             planner.plan_on(other2)
-            pi, q, v = tables(res, sl, al)                     # first read of the earlier result, after the later call
+            pi, q, v = tables(res, sl, al, can)                # first read of the earlier result, after the later call
             mdp2, _, _ = make_mdp(case, R)
-            again = tables(planner.plan_on(mdp2), sl, al)
+            again = tables(planner.plan_on(mdp2), sl, al, can)
             same = again == (pi, q, v)
         else:
             res = planner.plan_on(mdp)
-            pi, q, v = tables(res, sl, al)
+            pi, q, v = tables(res, sl, al, can)
         mutated = before != mdp._c19_shared() or (prior is not None and not torch.equal(prior, prior_before))
         return {"converged": bool(res.converged), "iterations": int(res.iterations),
                 "pi": pi, "q": q, "v": v, "states": [si[s] for s in sl], "actions": [ai[a] for a in al],
-                "views_touched": touched, "repeat_same": same, "inputs_mutated": bool(mutated),
-                "q_mat_equal_table": bool(all(float(res._qvaluemat[i, j]) == float(res.Q[s][a])
-                                              for i, s in enumerate(sl) for j, a in enumerate(al)))}
+                "views_touched": touched, "repeat_same": same, "inputs_mutated": bool(mutated), **extras(res, sl)}
     tf = tens(case["T"], torch)
     rf = tens(case["R"], torch)
     if case.get("noncontig"):
